@@ -8,6 +8,9 @@ G_NOTE = ("Trusted: Coq 8.16.1 kernel; the Reals axioms (sig_not_dec, sig_forall
           "the jaxpr->Coq translator tools/jaxpr2coq.py (its IR is re-validated against the real functions on every run); "
           "jax.make_jaxpr as a faithful account of the traced computation; float64 rounding is not formalised (bounded by the direct predicate on the implementation).")
 
+M_NOTE = ("Trusted: Coq 8.16.1 kernel (vm_compute for case evaluation); the hand-written model is tied to the code by sampled agreement only: the for-all is proved of the model and tested of the code; "
+          "NumPy/pandas/JAX semantics are modelled, not verified.")
+
 CLAIMS = {
  "C03": dict(engine="coq-layer-g", tech="Coq proof over definitions regenerated from the code (jaxpr translation) + direct predicate on the implementation",
    text="Full for the real-number semantics: for every gate of HH, Na, K, Km, CaL, CaT, IonotropicSynapse and TestSynapse, Coq theorems (all real v, all dt>0, all x in [0,1], all parameters; taumax>0, k_minus>0) state definedness of every division, the closed-form ODE solution, 0<=update<=1, movement toward and never past the steady state. float64 behaviour (every sampled double incl. singular voltages +-ulps) is tested, not proved.",
@@ -21,6 +24,9 @@ CLAIMS = {
  "C17": dict(engine="coq-layer-g", tech="Coq proof over definitions regenerated from the code (jaxpr translation) + direct predicate on the implementation",
    text="Full for the real-number semantics: bounds, strict monotonicity and both round trips of sigmoid, softplus, negative softplus, affine, masked and chained transforms for ALL real x and all lower<upper; chains of any length and ParamTransform (as map2 over leaves) as list theorems. float64 round trips are tested where the inverse is representable.",
    note=G_NOTE, ref="DESIGN.md §5 C17"),
+ "C20": dict(engine="coq-layer-m", tech="Coq proof about an executable model of the index layouts + correspondence with the implementation",
+   text="Full for the model: Coq theorems (axiom-free, all population sizes incl. n_pre != n_post, all matrices, every number of drawn connections incl. 0 and 1) that fully_connect yields exactly pre x post once each, sparse_connect is total, connectivity_matrix_connect yields exactly the True entries, and the presynaptic site is the first compartment of its cell. The model is compared with jaxley.connect on enumerated sizes/matrices/seeds on every run; the two repaired defects stay refuted in the model of the old code.",
+   note=M_NOTE, ref="DESIGN.md §5 C20"),
 }
 
 checks = []
